@@ -9,7 +9,7 @@ from param import rx
 from sx.api import assume, check, cover, untraced, pick, pickbool
 
 PROPERTY = 'C09'
-LABELS = ['C09.builds', 'C09.value', 'C09.exception_same', 'C09.recovers', 'C09.reflected_supported', 'C09.watch_called',
+LABELS = ['C09.where_chain', 'C09.builds', 'C09.value', 'C09.exception_same', 'C09.recovers', 'C09.reflected_supported', 'C09.watch_called',
           'C09.derived_value', 'C09.table_complete']
 EXPLANATION = ("Harness c09.prog: an expression e1 = op1(root, X) (op1 from the full operator table read from rx's class dict at run "
                "time: forward and reflected binary operators, unary operators, .rx helpers, getitem, method call; X a constant, a "
@@ -183,6 +183,43 @@ def prog(op1: int, xk: int, op2: int, yk: int, k: int, vr: int, watch: bool, a0:
             check('C09.derived_value', got == exp, dict(inf, got=repr(got), exp=repr(exp)))
 
 
+def whereprog(form: int, h1: int, v1: int, h2: int, v2: int, h3: int, v3: int, h4: int, v4: int) -> None:
+    """Expressions over the result of .rx.where with a reactive branch.  form 0: a chain rooted at the where result
+    (e1 = w.rx() + 1, e2 = e1 * 2); form 1: the where result as a non-root operand (e1 = o + w.rx(), e2 = e1 * 2).
+    History steps: 0 set the selected/unselected branch x, 1 flip/set the condition, 2 set o, 3 read e1, 4 read e2."""
+    form = pick(form, 0, 1)
+    c, x, o = rx(True), rx(5), rx(100)
+    w = c.rx.where(x, -1)
+    if form == 0:
+        e1 = w.rx() + 1
+        f1 = lambda: (x.rx.value if c.rx.value else -1) + 1
+    else:
+        e1 = o + w.rx()
+        f1 = lambda: o.rx.value + (x.rx.value if c.rx.value else -1)
+    e2 = e1 * 2
+    e1.rx.value
+    e2.rx.value
+    for step, (h, v) in enumerate(((h1, v1), (h2, v2), (h3, v3), (h4, v4))):
+        h = pick(h, 0, 4)
+        v = pick(v, 0, 2)
+        info = {'form': form, 'step': step, 'h': h, 'where_as_operand': form == 1}
+        if h == 0:
+            x.rx.value = 10 + v
+        elif h == 1:
+            c.rx.value = (v != 0)
+        elif h == 2:
+            o.rx.value = 200 + v
+        elif h == 3:
+            check('C09.where_chain', e1.rx.value == f1(), dict(info, got=e1.rx.value, exp=f1()))
+        else:
+            check('C09.where_chain', e2.rx.value == f1() * 2, dict(info, got=e2.rx.value, exp=f1() * 2))
+    info = {'form': form, 'step': 'final', 'where_as_operand': form == 1}
+    check('C09.where_chain', e2.rx.value == f1() * 2 and e1.rx.value == f1(), dict(info, e1=e1.rx.value, e2=e2.rx.value, exp=f1()))
+
+
+whereprog.ranges = lambda consts: dict(form=(0, 1), h1=(0, 4), h2=(0, 4), h3=(0, 4), h4=(0, 4), v1=(0, 2), v2=(0, 2), v3=(0, 2), v4=(0, 2))
+
+
 def table(tier):
     """The operator forms exercised cover every __op__/__rop__ defined on rx (read from the class at run time)."""
     import param.reactive as R
@@ -241,6 +278,11 @@ def shards(tier):
         for xk in (1, 2):
             c = dict(op1=op1, xk=xk, op2=0, yk=0, k=4, vr=1 if q else 2, watch=(xk == 2), h1r=(1, 2), h2r=(1, 2), h3r=(1, 2), h4r=(2, 2), a0=1, c=2)
             out.append(dict(name='C_op%d_x%d' % (op1, xk), module='harness.c09', fn='prog', consts=c, budget_s=45 if q else 300))
+    # (D) expressions over the result of .rx.where with a reactive branch
+    for form in (0, 1):
+        for h1 in range(5):
+            out.append(dict(name='D_f%d_h%d' % (form, h1), module='harness.c09', fn='whereprog', consts=dict(form=form, h1=h1),
+                            budget_s=45 if q else 300))
     return out
 
 
@@ -249,6 +291,7 @@ def bounds(tier):
     return dict(operator_forms=N1, root='symbolic in [-4,4] for linear operators, realised from a small range for non-linear ones',
                 value_range_for_realised_inputs='[-1,1]' if q else '[-2,2]',
                 family_A='every operator form x operand kind; histories: ' + ('[update, read]' if q else 'all of length 3'),
+                family_D='expressions over the result of .rx.where (chain rooted at it; as a non-root operand): all histories of length 4 over {set branch, set condition, set other root, read e1, read e2}',
                 family_C='error/recovery through a non-root operand: histories of length 4 over {set parameter, read e1}',
                 family_B='derived expression e2 = op2(e1, Y) built at a symbolic point; all histories of length 3',
                 history_ops=['set root', 'set parameter operand', 'read e1', 'derive (first time) and read e2'],
